@@ -228,7 +228,7 @@ def gen_history(r, name, malformed=False):
                 n = 0
             else:
                 n = r.choice([1, 2, 3, 5, 8, 13, 40])
-                if not e["linked"] and e["hi"] < e["len"]:
+                if not e["linked"] and e["hi"] < e["len"] and r.random() < 0.5:
                     n = min(n, max(avail, 0))
                     if n == 0:
                         continue
@@ -309,6 +309,44 @@ def gen_ext_scenario(r, name):
     lines += ["seek 2 %d 0" % p, "write 2 " + hexs(rbytes(r, r.choice([1, 2, 5, 12]))), "tell 2",
               "seek 1 0 0", "read 1 0", "seek 2 0 0", "read 2 0", "inquire 1", "end 1", "end 2",
               "getelement 0 %d %d" % (tag, ref), "reopen 0 16 1", "getelement 0 %d %d" % (tag, ref)]
+    return lines
+
+
+def gen_layout_scenario(r, name):
+    """end-of-file bookkeeping across sessions: fill the descriptor block(s), add descriptors that own no data
+    (Hdupdd) so that a DD block can be the last thing in the file, reopen, allocate new elements, reopen, read
+    everything; and: last element, Hdupdd, Htrunc, new element -- the duplicate must keep the old bytes"""
+    ndds = r.choice([4, 4, 5, 16])
+    lines = ["history " + name, "open 0 %d %d" % (ndds, r.choice([0, 1, 1]))]
+    keys = []
+    for i in range(r.randrange(1, 2 * min(ndds, 6) + 1)):
+        k = (TAGS[i % 3], i // 3 + 1)
+        keys.append(k)
+        lines.append("putelement 0 %d %d %s" % (k[0], k[1], hexs(rbytes(r, r.choice([1, 3, 8, 20])))))
+    dups = []
+    for j in range(r.randrange(0, ndds + 2)):
+        o = r.choice(keys)
+        k = (103, j + 1)
+        dups.append(k)
+        lines.append("dupdd 0 %d %d %d %d" % (k[0], k[1], o[0], o[1]))
+    if r.random() < 0.5:
+        # the last element of the file gets an alias, is truncated, and something new is allocated after it
+        last = keys[-1]
+        lines += ["dupdd 0 104 1 %d %d" % last, "startaccess 0 0 %d %d 3" % last, "trunc 0 %d" % r.choice([0, 1, 2]),
+                  "tell 0", "end 0"]
+        dups.append((104, 1))
+    lines.append("reopen 0 %d %d" % (ndds, r.choice([0, 1])))
+    for i in range(r.randrange(1, 4)):
+        k = (105, i + 1)
+        keys.append(k)
+        if r.random() < 0.5:
+            lines.append("putelement 0 %d %d %s" % (k[0], k[1], hexs(rbytes(r, r.choice([2, 6, 12, 40])))))
+        else:
+            lines += ["startwrite 1 0 %d %d %d" % (k[0], k[1], r.choice([4, 10, 30])), "write 1 " + hexs(rbytes(r, 3)),
+                      "seek 1 0 0", "read 1 0", "end 1"]
+    lines.append("reopen 0 16 1")
+    for k in keys + dups:
+        lines.append("getelement 0 %d %d" % k)
     return lines
 
 
@@ -568,11 +606,6 @@ def first_bad(R, S, flat, lo, hi):
             return None, None
         if i >= len(R) or R[i].startswith("crash"):
             return i, "crash"
-        if R[i] == "fail" and ".." in S[i].split()[-1]:
-            # a read that touches a gap made by seeking: its content is unspecified until the file is reopened,
-            # and the library may refuse it while the bytes are not physically in the file yet; nothing later
-            # in this history can be compared (positions diverge)
-            return None, None
         if not match(R[i], S[i]):
             return i, "mismatch"
     return None, None
@@ -661,7 +694,8 @@ def run(ctx):
     nh = 250 if ctx.tier == "quick" else 4000
     hists = corpus + [gen_history(r, "g%d" % i) for i in range(nh)] + \
         [gen_history(r, "m%d" % i, malformed=True) for i in range(nh // 5)] + \
-        [gen_ext_scenario(r, "x%d" % i) for i in range(nh // 6)]
+        [gen_ext_scenario(r, "x%d" % i) for i in range(nh // 6)] + \
+        [gen_layout_scenario(r, "y%d" % i) for i in range(nh // 4)]
     rc, R, S, flat = run_histories(ctx, hists, "main")
     opmix, fails_r = {}, 0
     pos = 0
@@ -713,8 +747,6 @@ def run(ctx):
         for i in range(lo, hi):
             if ML[i] in ("nomodel", "skip", "history"):
                 continue
-            if i < len(RL) and RL[i] == "fail" and SL[i].startswith("ok") and ".." in SL[i].split()[-1]:
-                break    # in-session read of a gap refused by the library: unspecified (see first_bad)
             if i >= len(RL) or RL[i] != ML[i]:
                 bad = i
                 break
